@@ -331,6 +331,19 @@ let seqenc_line line =
      | M.RPanic _ -> "panic")
   | _ -> "bad"
 
+(* ---- Huffman literal stream: hufstream <c,n c,n ...|-> <data-hex> ; hufdec <encoded-hex> ---- *)
+let hufstream_line line =
+  match List.filter (fun x -> x <> "") (split_on ' ' line) with
+  | data :: codes ->
+    let cs = List.map (fun c -> match split_on ',' c with [a; b] -> (z_of_string a, nat_of_int (int_of_string b)) | _ -> failwith "bad") codes in
+    "ok " ^ hex (M.huf_stream_model cs (unhex data))
+  | _ -> "bad"
+let hufdec_line line =
+  match M.huf_describe_and_decode (unhex (String.trim line)) with
+  | M.ROk (used, out) -> Printf.sprintf "ok %s %s" (z_to_string used) (hex out)
+  | M.RErr _ -> "err"
+  | M.RPanic _ -> "panic"
+
 let () =
   let cmd = if Array.length Sys.argv > 1 then Sys.argv.(1) else "" in
   let f = match cmd with
@@ -341,6 +354,8 @@ let () =
     | "frame" -> frame_line
     | "io" -> io_line
     | "seqenc" -> seqenc_line
+    | "hufstream" -> hufstream_line
+    | "hufdec" -> hufdec_line
     | "bits64" -> bits_line 0
     | "bitsabs" -> bits_line 1
     | _ -> prerr_endline "usage: driver <prog|fse|huf> < cases"; exit 2 in
